@@ -1,7 +1,7 @@
 """C07 — EPA returns the minimum translation vector whenever it reports success (structural clauses)."""
 from . import scopes
 from ..core.report import DOMAIN_D
-from ..rules import eager, epa, mink, buffers, loops, degree, unpack, misc2
+from ..rules import generic2, eager, epa, mink, buffers, loops, degree, unpack, misc2
 from .common import e1
 
 MODS = ["distance3d.epa"]
@@ -47,6 +47,7 @@ def run(idx, rep, tier):
     rep.check(ok, "R-FACEROLE", f.key + "|returned vector is a length (normal * distance)", f.where,
               "every returned translation vector must have length degree 1 (unit normal times a distance); inferred degrees %s" % (res,))
     misc2.r_dupcond(idx, rep, [m.name for m in idx.lib_modules()], floor=3)
+    generic2.r_definite(idx, rep, [m.name for m in idx.lib_modules()], floor=2)
     epa.r_loudcap(idx, rep)
     epa.r_swapremove(idx, rep)
     degree.r_tolunit(idx, rep, ["distance3d.epa"], floor=1, face_arrays=degree.EPA_FACES)
